@@ -16,6 +16,7 @@
      insbad  k      insert the invalid UTF-8 byte 0x80   k in 0..Bytes
      insustr k      insert an unterminated string  "x    k in 0..Bytes
      insubc  k      insert an unterminated comment /*    k in 0..Bytes
+     bom     0      put the UTF-8 byte order mark EF BB BF in front (never thinned)
 
    The first mutation of a chain has an exact position.  For a later mutation the position is an
    ordinal that the driver reduces modulo the current size of the (already mutated) text, because
@@ -36,7 +37,7 @@ VARIABLES file, muts
 vars == <<file, muts>>
 
 AllTokOps  == {"deltok", "duptok", "swaptok"}
-AllByteOps == {"truncate", "insnul", "insbad", "insustr", "insubc"}
+AllByteOps == {"truncate", "insnul", "insbad", "insustr", "insubc", "bom"}
 ASSUME TokOps \subseteq AllTokOps /\ ByteOps \subseteq AllByteOps
 ASSUME Len(Toks) = NFiles /\ Len(Bytes) = NFiles
 
@@ -49,7 +50,8 @@ Mutations(f) ==
        {[op |-> o, pos |-> p, n |-> 0] : o \in {x \in TokOps : x # "swaptok"}, p \in TokPositions(f, "deltok")}
   \cup {[op |-> "swaptok", pos |-> p, n |-> 0] : p \in IF "swaptok" \in TokOps THEN TokPositions(f, "swaptok") ELSE {}}
   \cup {[op |-> "nest", pos |-> p, n |-> d] : p \in TokPositions(f, "nest"), d \in NestDepths}
-  \cup {[op |-> o, pos |-> k, n |-> 0] : o \in ByteOps, k \in BytePositions(f)}
+  \cup {[op |-> o, pos |-> k, n |-> 0] : o \in ByteOps \ {"bom"}, k \in BytePositions(f)}
+  \cup (IF "bom" \in ByteOps THEN {[op |-> "bom", pos |-> 0, n |-> 0]} ELSE {})
 
 Init == file \in 1..NFiles /\ muts = <<>>
 Next == /\ Len(muts) < MaxChain
